@@ -415,6 +415,21 @@ Proof.
     intros k. rewrite cfs_invs, cget_cset. destruct (pair_eqb_spec k (cid0, idgen_next (s_invgen callee))); auto.
 Qed.
 
+(** the dealer an aborted CALL leaves behind: no registration gains a callee *)
+Lemma call_abort_dealer_cle : forall lk d caller req opts proc oracle,
+    dealer_wf lk d -> callees_le d (call_abort_dealer lk d caller req opts proc oracle).
+Proof.
+  intros lk d caller req opts proc oracle WF. unfold call_abort_dealer.
+  destruct (match_procedure d proc oracle) as [rg|] eqn:Hm; [|apply cle_refl].
+  destruct (reg_callees rg) eqn:Ec; [apply cle_refl|]. rewrite <- Ec.
+  destruct (opt_bool opts "progress" && _); [apply cle_refl|].
+  destruct (cget (d_bycall d) (s_id caller, req)); [apply cle_refl|].
+  destruct (select_callee rg oracle) as [[cid next]|]; [|apply cle_refl].
+  destruct (lk cid); [|apply cle_refl].
+  apply (best_match_sound lk d WF) in Hm. destruct Hm as [Hr _].
+  apply (call_d0_cle d rg next). exact Hr.
+Qed.
+
 (** ** Realm level: quiet steps *)
 Definition ikeys_sub_nm (d d' : dealer) : Prop :=
   forall y i, y <> meta_id -> cget (d_invs d') (y, i) <> None -> cget (d_invs d) (y, i) <> None.
@@ -653,9 +668,14 @@ Proof.
     pose proof (call_inv_facts (r_cfg r) (lookup r) (r_now r) (r_dealer r) s req opts proc args kw oracle Wd LOK NW) as CF.
     destruct (call _ _ _ _ _ _ _ _ _ _ _) as [d o|o|d callee' o] eqn:Ecall.
     + left. cbn [fst snd]. eapply qstep_dealer; [exact CF|reflexivity|reflexivity].
-    + left. assert (Q : qstep r o r).
-      { constructor; [exact CF|apply iks_nm, iks_refl|apply back_same; reflexivity|auto]. }
-      specialize (LvQ r o Q). destruct (leave r (s_id s)) as [r1 o1]. exact LvQ.
+    + left.
+      pose proof (call_abort_dealer_tables (lookup r) (r_dealer r) s req opts proc oracle) as (_ & Ei & _).
+      pose proof (call_abort_dealer_cle (lookup r) (r_dealer r) s req opts proc oracle Wd) as Cl.
+      match goal with |- context [leave ?R (s_id s)] =>
+        assert (Q : qstep r o R);
+        [constructor; [exact CF|apply iks_nm, iks_same; exact Ei|apply back_same; reflexivity|
+                       intros y0 rid0 N0; left; eapply cle_not_callee; [exact Cl|exact N0]]|
+         specialize (LvQ R o Q); destruct (leave R (s_id s)) as [r1 o1]; exact LvQ] end.
     + destruct CF as (Cle & y & b & rid & det & Eo & Ey & Kind).
       set (r1 := update_session (r_set_dealer r d) callee').
       assert (Hat : lookup (r_set_dealer r d) (s_id callee') <> None).
